@@ -348,7 +348,7 @@ pub fn checks() -> Vec<Check> {
         id: "C18",
         level: "model_checking",
         stages: vec![
-            st("c18.elements", c18::elements, (0, 0), 3, "6 base documents (3 writer, 3 e57spec) x every insertion position inside every Structure/Vector/CompressedVector element outside prototypes x 88 local names (every name the reader searches for + an unknown one) x 4 foreign element shapes"),
+            st("c18.elements", c18::elements, (0, 0), 3, "6 base documents (3 writer, 3 e57spec; thorough: + every scene of the catalogue) x every insertion position inside every Structure/Vector/CompressedVector element outside prototypes x 88 local names (every name the reader searches for + an unknown one) x 4 foreign element shapes"),
             st("c18.attributes", c18::attributes, (0, 0), 3, "6 base documents x every standard element x 6 foreign attributes (vx:type, vx:fileOffset, vx:recordCount, vx:length, vx:minimum, vx:precision)"),
             st("c18.proto_extensions", c18::proto_extensions, (0, 0), 3, "extension attribute named like 6 standard attributes and 6 other accepted names x 5 namespace prefixes x every position in the prototype x optional second extension attribute: written by the real writer, read back exactly"),
             st("c18.scoped_ns", c18::scoped_ns, (0, 0), 3, "2 documents x 2 extension prefixes x declaration moved from e57Root to {record element, prototype, points, data3D child}: prototype names, points and metadata reported as before"),
